@@ -307,6 +307,27 @@ func checkHistory(h *history) (msg string, harnessErr string) {
 			return fmt.Sprintf("call %d (options %q) on %+q gives a different result than the same program followed by white space, compiled with equal parameters:\n in the history: %s\n on its own:     %s", i, c.Opts, c.Src, seq.Results[i], r), ""
 		}
 	}
+	// a caller may change its parameter map between two calls on the same
+	// options value: the later call sees the map as it is then
+	{
+		opts := &pql.CompileOptions{Parameters: copyMap(h.Shared)}
+		seen := map[string]bool{}
+		for _, c := range h.Calls {
+			if c.Kind != "compile" || seen[c.Src] || len(seen) >= 6 {
+				continue
+			}
+			seen[c.Src] = true
+			opts.Compile(c.Src)
+			for k, v := range opts.Parameters {
+				opts.Parameters[k] = "(" + v + ")"
+			}
+			got := runCall(histCall{Kind: "compile", Src: c.Src, Opts: "shared"}, opts)
+			want := runCall(histCall{Kind: "compile", Src: c.Src, Opts: "shared"}, &pql.CompileOptions{Parameters: copyMap(opts.Parameters)})
+			if got != want {
+				return fmt.Sprintf("after the caller changed the values of its parameter map in place, a call on the same options value on %+q gives\n %s\nwhile a fresh options value with an equal map gives\n %s", c.Src, got, want), ""
+			}
+		}
+	}
 	// a second sequential run (history dependence)
 	again := runSequential(h)
 	for i := range seq.Results {
@@ -384,7 +405,7 @@ func TestC14Histories(t *testing.T) {
 			fmt.Sprintf("let %s = %d; T | where a > %s | take 3", fresh, rapid.IntRange(1, 9).Draw(rt, "freshval"), fresh),
 			fmt.Sprintf("T | where %s > 3 | project %s, b | take lim", fresh, fresh))
 		for i, n := 0, rapid.IntRange(2, 6).Draw(rt, "npool"); i < n; i++ {
-			switch rapid.IntRange(0, 11).Draw(rt, "srckind") {
+			switch rapid.IntRange(0, 13).Draw(rt, "srckind") {
 			case 9:
 				// many operators: any limit or table keyed by their number is the
 				// same whatever options value the call goes through
@@ -418,6 +439,13 @@ func TestC14Histories(t *testing.T) {
 				pool = append(pool, fmt.Sprintf("let %s = %d; T | where a == %s and b < p1 | take lim", p, rapid.IntRange(0, 9).Draw(rt, "v"), p))
 			case 1:
 				pool = append(pool, "T | where not(isnull(a)) and tolower(b) == strcat('x', c) | summarize n = countif(iff(a > 1, true, false)), count() by now()")
+			case 12:
+				// the clock is no input: now() is written as SQL's own clock
+				pool = append(pool, rapid.SampledFrom([]string{"let t0 = now(); T | where ts > t0 | take 1", "let cutoff = now() - 3600; T | where ts < cutoff | project ts, c = cutoff", "T | extend t = now() | summarize count() by now()"}).Draw(rt, "clocksrc"))
+			case 13:
+				// a let whose value fails half-way, next to lets that compile
+				pool = append(pool, rapid.SampledFrom([]string{"let lo = -floor; T | where a > lo", "let v = (2 - zz_unbound); T | take v", "let w = strcat('a', not(1, 2)); T | where b == w", "let u = -(3 * (4 + nope)); T"}).Draw(rt, "badlet"),
+					"let limit = 10; T | where a < limit | project r = a * limit")
 			case 11:
 				// a built-in's name in another letter case is some other function
 				w := rapid.SampledFrom([]string{"Not", "IsNull", "NOT", "Iff", "StrCat", "ToLower", "Count", "isNull", "CountIf", "Now", "IsNotNull", "TOUPPER"}).Draw(rt, "casedbuiltin")
